@@ -42,12 +42,13 @@ from crosshair.main import unwalled_main  # noqa: E402
 
 
 def main():
-    timeout, target = sys.argv[1], sys.argv[2]
-    extra = sys.argv[3:]
+    timeout = sys.argv[1]
+    targets = [a for a in sys.argv[2:] if not a.startswith("--")]
+    extra = [a for a in sys.argv[2:] if a.startswith("--")]
     t = time.process_time()
     code = 2
     try:
-        code = unwalled_main(["check", "--report_all", "--per_condition_timeout", timeout, *extra, target])
+        code = unwalled_main(["check", "--report_all", "--per_condition_timeout", timeout, *extra, *targets])
         code = code if isinstance(code, int) else 0
     except SystemExit as e:
         code = e.code if isinstance(e.code, int) else 2
